@@ -35,11 +35,12 @@ T = {
  "C06": ("Lean theorems for every n, v: each of the eight helper predicates is equivalent to its cofactor definition over all assignments (both in-word and cross-word paths), "
          "and the priority chain equals the case list of the property; tie: differential run for all v, n <= 12; oracle: cofactors computed assignment by assignment.",
          "Trust: as C01.", "Lean 4 proof + differential run + definitional oracle", "5 (C06)"),
- "C07": ("Lean theorems: per-level extraction, normalisation, filters and sort+dedup count the distinct normalised sub-functions that depend on the level variable and are not a literal "
-         "(the textbook characterisation of shared complement-edge ROBDD nodes), hence invariance under order, duplicates and complement; tie: differential run on lists of 0..4 functions, n <= 11; "
-         "oracle: an independent unique-table ROBDD node count on the real code.",
-         "Trust: as C01; the equality with an explicitly constructed ROBDD datatype lives in the oracle, the theorem is stated on the sub-function characterisation.",
-         "Lean 4 proof of the counting characterisation + differential run + ROBDD oracle", "5 (C07)"),
+ "C07": ("Lean theorems: bdd_complexity of a list of functions equals the number of non-literal nodes of their shared reduced ordered BDD with complemented edges (variable n-1 at the root), "
+         "the BDD being an explicit datatype built by Shannon expansion with the reduction and complement-edge normal-form rules (Lemmas/Robdd.lean: canonicity mk_inj, node characterisation mem_nodes_mk, level-by-level count); "
+         "per-level extraction, normalisation, filters and sort+dedup count the distinct normalised sub-functions that depend on the level variable and are not a literal; hence invariance under order, duplicates and complement; "
+         "static = dynamic, panic exactly on mixed sizes; tie: differential run on lists of 0..4 functions, n <= 11; oracle: an independent unique-table ROBDD node count on the real code.",
+         "Trust: as C01; the ROBDD of the theorem is the definition `Robdd.mk` (textbook construction, stated in the file).",
+         "Lean 4 proof (explicit ROBDD datatype, canonicity, counting) + differential run + ROBDD oracle", "5 (C07)"),
  "C08": ("Lean theorems: cmp is numeric comparison of the little-endian table value (total order, agrees with equality), the successor step is +1 modulo 2^(2^n) with the returned flag = no wrap, "
          "including carries across words, the iterator yields the k-th function at step k and then stops, and for equal n the order is the byte order of the fixed-width hex strings (Props/C08Hex.lean); tie: hook verif_next + differential run incl. all-ones low words; oracle: own big-integer arithmetic.",
          "Trust: as C01.", "Lean 4 proof + hook-driven differential run + big-integer oracle", "5 (C08)"),
